@@ -162,16 +162,26 @@ func (s *Store[H]) deleteParallel(ctx context.Context, from, to uint64) (uint64,
 			}
 		}()
 
+		// first is the lowest height given to this worker (jobs arrive in ascending order)
+		var first uint64
 		workerCtx, done := s.withWriteBatch(ctx)
 		defer func() {
 			if err := done(); err != nil {
 				last.err = errors.Join(last.err, fmt.Errorf("committing delete batch: %w", err))
+				// none of the deletes batched by this worker were applied, so report its lowest
+				// height, s.t. the tail is not moved past headers that are still stored
+				if first != 0 {
+					last.height = first
+				}
 			}
 		}()
 		workerCtx, doneTx := s.withReadTransaction(workerCtx)
 		defer doneTx()
 
 		for height := range jobCh {
+			if first == 0 {
+				first = height
+			}
 			last.height = height
 			last.err = s.deleteSingle(workerCtx, height, onDelete)
 			if errors.Is(last.err, datastore.ErrNotFound) {
